@@ -556,12 +556,36 @@ func runBenign(prog *load.Program, root, verif string, selected []*core.Rule, ba
 	}
 	dirs, _ := filepath.Glob(filepath.Join(verif, "benign", "*"))
 	sort.Strings(dirs)
+	// a patch is relevant to this property if it touches a directory in which one of the property's obligations lives
+	// (the others cannot change any verdict here and are judged by the properties they do concern)
+	obDirs := map[string]bool{}
+	for _, o := range base {
+		f, _ := posFileLine(o.Pos)
+		if f != "" && f != "?" {
+			obDirs[filepath.Dir(f)] = true
+		}
+	}
 	var out []seedResult
 	for _, d := range dirs {
 		res := seedResult{Name: filepath.Base(d), Rule: "*"}
 		files, err := patch.ApplyFile(filepath.Join(d, "patch.diff"), root)
 		if err != nil {
 			res.Status, res.Detail = "stale", err.Error()
+			out = append(out, res)
+			continue
+		}
+		relevant := false
+		for f := range files {
+			rel, rerr := filepath.Rel(root, f)
+			if rerr != nil {
+				rel = f
+			}
+			if obDirs[filepath.Dir(rel)] {
+				relevant = true
+			}
+		}
+		if !relevant {
+			res.Status, res.Detail = "silent", "touches no directory this property has obligations in"
 			out = append(out, res)
 			continue
 		}
